@@ -56,6 +56,10 @@ def expr_ast(x):
         return ('at', expr_ast(x[1]), expr_ast(x[2]))
     if k == 'len':
         return ('len', expr_ast(x[1]))
+    if k in ('s1', 's2'):
+        return (k, x[1]) + tuple(expr_ast(a) for a in x[2:])
+    if k == 'substr':
+        return ('substr',) + tuple(expr_ast(a) for a in x[1:])
     raise ValueError(x)
 
 
@@ -169,6 +173,10 @@ def node_at(body, path):
                 n = n[1 + k]
             elif t == 'len':
                 n = n[1]
+            elif t in ('s1', 's2'):
+                n = n[2 + k]
+            elif t == 'substr':
+                n = n[1 + k]
             else:
                 raise ValueError((t, k))
     chain.append((n[0], n))
@@ -207,6 +215,8 @@ def consumer(chain, path):
         return 'array-length-arg'
     if pk == 'arr':
         return 'array-element'
+    if pk in progen.STR_NODES:
+        return 'string-builtin-arg'
     if pk == 'if':
         return 'if-cond'
     if pk == 'while':
@@ -269,6 +279,12 @@ def _propagate(chain, path):
         if pk == 'arr':
             # an element of UNKNOWN type is compared with nothing: the literal is an array whatever its elements are
             return 'array-element-type-unchecked'
+        if pk in progen.STR_NODES:
+            # (+ a b) on strings is the arithmetic operator: UNKNOWN passes through; the builtins have signatures
+            if pk == 's2' and pn[1] == 'plus':
+                i -= 1
+                continue
+            return 'string-builtin-arg-unchecked'
         if pk == 'print':
             return 'print-arg-unchecked'
         if pk == 'expr':
